@@ -110,7 +110,9 @@ def search(ctx, disagreements):
             try:
                 SVG.fromstring(c["src"]).topicosvg(ndigits=c["ndigits"], allow_text=c["allow_text"], drop_unsupported=True)
             except ValueError as e:
-                if "BadElement" in str(e):
+                # "BadElement: <path> reuses id=..." is the duplicate-id report, not an unsupported element
+                bad = [m for m in str(e).split("BadElement: ")[1:] if "reuses id=" not in m]
+                if bad:
                     found.append({"kind": "grammar", "input": c, "tag": None, "detail": "drop_unsupported=True but the call failed because of unsupported elements: %s" % str(e)[:200]})
             except Exception:
                 pass
